@@ -22,6 +22,10 @@ CONTROLS = [
     ("ReturnOnSuback", "MC_Life_quick", "Inv_C13"),
     ("KeepSenderOnDrop", "MC_Life_quick", "Inv_C14"),
     ("NoWakeOnComplete", "MC_Wake_quick", "NoLostWakeup"),
+    ("InvertedExpiry", "MC_Resume_quick", "Inv_C17"),
+    ("KeepPublishAfterPubrec", "MC_Resume_quick", "Inv_C17"),
+    ("ResendReversed", "MC_Resume_quick", "Inv_C17"),
+    ("ResendWithoutDup", "MC_Resume_quick", "Inv_C17"),
 ]
 def run(dev, cfg, inv):
     src = open(os.path.join(SPEC, cfg + ".cfg")).read()
